@@ -48,7 +48,12 @@ func (m *MockConn) Read(b []byte) (int, error) {
 	defer m.mu.Unlock()
 
 	if m.readPos >= len(m.readBuffer) {
-		return 0, net.ErrClosed
+		if m.closed {
+			return 0, net.ErrClosed
+		}
+		// Nothing to read yet: behave like a connection whose read deadline ran out,
+		// not like a closed one (handlers that poll, such as IDLE, tell the two apart)
+		return 0, os.ErrDeadlineExceeded
 	}
 	n := copy(b, m.readBuffer[m.readPos:])
 	m.readPos += n
